@@ -9,13 +9,16 @@ CFG = dict(
     post=_post,
     prop="C02", level="proof", harness="c02",
     props_files=["theories/Props/C02.v", "theories/Props/Pem.v"], corr_file="theories/Corr/C02.v", corr_module="Corr.C02",
+    extra_targets=["theories/Corr/Pem.vo"],   # imported by the generated coq/gen/PemGrammar_<d>.v of the Pem stage (absent in a fresh clone / after make clean)
     groups={"root": False, "append": False, "wrap": False},
     show_fn={"root": "model_root", "append": "model_append", "wrap": "model_wrap"},
     shard=120,
     design_ref="DESIGN.md 6.2, A.2; notes/C02.md",
     technique="Coq proof (MatchResult::apply re-slices exactly its span for every well-formed match; root_parse covers every "
               "token; append/wrap preserve well-formedness) + correspondence of the Gallina root_parse/apply/append/wrap with "
-              "the real parser on recorded (tokens, root MatchResult) + direct observation leaves(tree) == lexer tokens",
+              "the real parser on recorded (tokens, root MatchResult) + direct observation leaves(tree) == lexer tokens "
+              "+ direct observation of the second sentence: every code leaf outside the unparsable nodes that still has its lexer kind is "
+              "accepted under that kind by some terminal parser of the dialect (terminals re-tag what they match), else it was kept silently",
     level_text="Pem (DESIGN 6.21): the combinator engine is also modelled, as a Gallina interpreter over the dumped grammar graphs, validated on every run against the root MatchResult of the real parser (4 dialects quick / 13 thorough); Pem_match_bounds / Pem_root_bounds prove for every grammar and token list that every match result satisfies idx <= start <= end <= len (the span clause of wf). The remaining clauses of wf stay a monitored hypothesis (they are false for arbitrary graphs). "
                "C02_apply_leaves / C02_root / C02_unparsable_kept / C02_append_WF / C02_wrap_WF are closed Coq theorems for every token "
                "array and every well-formed MatchResult (unbounded depth and width): apply never panics and its non-meta leaves are "
@@ -27,7 +30,11 @@ CFG = dict(
                "recorded and checked against WF on every run. Panics inside the grammar (dangling keyword references, C14) are known findings.",
     rule="13 dialects x (876 corpus fixtures in their own dialect, rule yaml snippets, cross-dialect sample (thorough: all 13x876), "
          "token-level corruptions delete/duplicate/swap/insert/truncate/drain of lexed corpus files, junk stream: empty, comments only, "
-         "unbalanced brackets, unterminated quotes, CRLF, non-ASCII, garbage between statements). Each input is lexed by the dialect lexer "
+         "unbalanced brackets, unterminated quotes, CRLF, non-ASCII, garbage between statements, "
+         "gap-junk: one junk token (a token no terminal of the dialect accepts - unlexable characters, foreign operators - or an ordinary one) "
+         "inserted after every opening bracket / before every closing bracket / after every ';' / at random gaps of every corpus file <= 1500 chars "
+         "(thorough: every gap) and at every gap of 16 greedy-site statements (IN lists, VALUES, USING, OVER, array literals, scripting blocks) "
+         "under every dialect). Each input is lexed by the dialect lexer "
          "and parsed by Parser::parse; the recorded root MatchResult and token array are replayed through the Gallina root_parse and the "
          "resulting tree compared with the real tree; append/wrap are replayed on sibling sub-matches. "
          "non-trivial = the recorded match has >= 3 nodes; distinct = distinct (tokens, match, tree) terms",
